@@ -213,6 +213,21 @@ def run_history(h):
         for n, op in enumerate(h["ops"]):
             kind = op["op"]
             rec = {"out": "ok"}
+            # an operation that names a dataset this repository never received (e.g. a transfer that skipped it)
+            # cannot be issued at all: it is skipped, and reported as such
+            missing = False
+            if kind == "ingest" and op.get("reuse") is not None:
+                missing = op["reuse"] not in repos[op["repo"]].refs
+            elif kind == "xfer":
+                missing = op["k"] not in repos[op["from"]].refs
+            elif kind in ("assoc", "disassoc"):
+                missing = op["k"] not in repos[op["repo"]].refs
+            elif kind == "remove":
+                rec["ks_used"] = [k for k in op["ks"] if k in repos[op["repo"]].refs]
+                missing = not rec["ks_used"]
+            if missing:
+                steps.append({"out": "skipped"})
+                continue
             try:
                 if kind == "put":
                     r = repos[op["repo"]]
@@ -261,7 +276,7 @@ def run_history(h):
                     r.butler.registry.disassociate(op["tag"], [r.refs[op["k"]]])
                 elif kind == "remove":
                     r = repos[op["repo"]]
-                    refs = [r.refs[k] for k in op["ks"]]
+                    refs = [r.refs[k] for k in rec["ks_used"]]
                     r.butler.pruneDatasets(refs, purge=op["purge"], unstore=True, disassociate=op["purge"])
                 else:
                     raise RuntimeError(f"unknown op {kind}")
